@@ -16,12 +16,17 @@ package main
 //   edit <plen> <xlen> <ylen> file0 = p++x++t, file1 = p++y++t
 //   run <r> <bufSize> <dirty 0/1> <pattern-of-file-0> <pattern-of-file-1> ...
 //   out <r> <i> ok <hex chunk>*   | out <r> <i> sizes <concat_ok 0/1> <n>* | out <r> <i> error
+//   conc <r> <workers> <schedule>   run r used several file workers at once (sub-stream conc): the
+//       files' readers take turns buffer by buffer as the schedule (string of reader ids) says
 import (
 	"context"
 	"errors"
 	"fmt"
 	"io"
 	"strconv"
+	"strings"
+	"sync"
+	"time"
 
 	"github.com/restic/chunker"
 	"github.com/restic/restic/internal/archiver"
@@ -186,6 +191,195 @@ func streamC17(h *H) {
 	for i := 0; i < nReal; i++ {
 		h.c17Real(pols[1+h.Intn(len(pols)-1)], i)
 	}
+	nConc := h.N(4, 40)
+	for i := 0; i < nConc; i++ {
+		h.c17Conc(pols[1+h.Intn(len(pols)-1)])
+	}
+}
+
+// c17Turns lets the readers of concurrently saved files proceed one at a time in the order given
+// by a generated schedule. A reader keeps its turn from the moment its Read is granted until it
+// asks for the next Read (or is closed), so the worker's NextSplitPoint call on the buffer it just
+// filled runs while no other worker is inside the chunker: the interleaving of NextSplitPoint /
+// Reset calls of different workers is exactly the schedule — deterministic, no goroutine race.
+type c17Turns struct {
+	mu     sync.Mutex
+	cond   *sync.Cond
+	sched  []int
+	pos    int
+	holder int // reader currently holding the turn, -1 = nobody
+	done   []bool
+}
+
+func (t *c17Turns) next() int { // reader whose turn it is (skipping finished readers); -1 = all done
+	for n := 0; n < len(t.sched)+len(t.done); n++ {
+		id := t.sched[t.pos%len(t.sched)]
+		if !t.done[id] {
+			return id
+		}
+		t.pos++
+	}
+	return -1
+}
+
+type c17TurnReader struct {
+	id   int
+	t    *c17Turns
+	rd   io.Reader
+	held bool
+}
+
+func (r *c17TurnReader) release() {
+	if r.held {
+		r.held = false
+		r.t.holder = -1
+		r.t.pos++
+		r.t.cond.Broadcast()
+	}
+}
+
+func (r *c17TurnReader) Read(p []byte) (int, error) {
+	t := r.t
+	t.mu.Lock()
+	r.release()
+	for !(t.holder == -1 && t.next() == r.id) {
+		t.cond.Wait()
+	}
+	t.holder, r.held = r.id, true
+	t.mu.Unlock()
+	return r.rd.Read(p)
+}
+
+func (r *c17TurnReader) Close() error {
+	t := r.t
+	t.mu.Lock()
+	t.done[r.id] = true
+	if r.held {
+		r.release()
+	} else {
+		t.cond.Broadcast()
+	}
+	t.mu.Unlock()
+	return nil
+}
+
+// c17Conc: two or three file workers of the real fileSaver chunk large files at the same time with
+// chunkers handed out by the repository's factory; run 0 is the single-worker reference.
+func (h *H) c17Conc(pol chunker.Pol) {
+	repo, err := repository.New(mem.New(), repository.Options{})
+	if err != nil {
+		panic(err)
+	}
+	if err := repo.Init(context.Background(), 2, "geheim", &pol); err != nil {
+		panic(err)
+	}
+	const MiB = 1 << 20
+	nfiles := 2 + h.Intn(2)
+	var filesSegs [][]c17Seg
+	for i := 0; i < nfiles; i++ {
+		n := MiB + MiB/2 + h.Intn(MiB+MiB/2) // 1.5 .. 3 MiB: 3-6 read buffers, 1-4 cuts
+		if h.Thorough() {
+			n += h.Intn(2 * MiB)
+		}
+		switch h.Intn(5) {
+		case 0:
+			filesSegs = append(filesSegs, []c17Seg{{kind: "r", seed: h.Rng.Uint64(), n: n / 2}, {kind: "z", n: n / 4}, {kind: "r", seed: h.Rng.Uint64(), n: n / 4}})
+		case 1:
+			filesSegs = append(filesSegs, []c17Seg{{kind: "z", n: n}})
+		default:
+			filesSegs = append(filesSegs, []c17Seg{{kind: "r", seed: h.Rng.Uint64(), n: n}})
+		}
+	}
+	var files [][]byte
+	for _, ss := range filesSegs {
+		var b []byte
+		for _, s := range ss {
+			b = append(b, s.bytes()...)
+		}
+		files = append(files, b)
+	}
+	h.Case("conc")
+	h.Rec("cfg", U64(uint64(repo.Config().ChunkerPolynomial)), Itoa(chunker.MinSize), Itoa(chunker.MaxSize), "20")
+	for j, ss := range filesSegs {
+		toks := []string{Itoa(j)}
+		for _, s := range ss {
+			toks = append(toks, s.tok())
+		}
+		h.Rec("filed", toks...)
+	}
+	bufSize := int(archiver.VerifFactsC17()["archiver_chunkReadBufSize"])
+	emit := func(r int, res []archiver.VerifC17Result) {
+		for j, o := range res {
+			if o.Err != nil {
+				h.Rec("out", Itoa(r), Itoa(j), "error")
+				continue
+			}
+			var cat []byte
+			toks := []string{Itoa(r), Itoa(j), "sizes", ""}
+			for _, c := range o.Chunks {
+				cat = append(cat, c...)
+				toks = append(toks, Itoa(len(c)))
+			}
+			toks[3] = B(string(cat) == string(files[j]) && o.Size == uint64(len(files[j])))
+			h.Rec("out", toks...)
+		}
+	}
+	// run 0: one worker, one file after the other (reference)
+	toks := []string{"0", Itoa(bufSize), "0"}
+	var rds []io.Reader
+	for _, f := range files {
+		toks = append(toks, "full")
+		rds = append(rds, &c17Reader{data: f})
+	}
+	h.Rec("run", toks...)
+	var res []archiver.VerifC17Result
+	if panicked, msg := Protect(func() { res = archiver.VerifC17RealWorker(repo.ChunkerFactory(), rds) }); panicked {
+		h.Rec("panic", "0", HexS(msg))
+		h.End()
+		return
+	}
+	emit(0, res)
+	// run 1: as many workers as files, all at once, readers take turns
+	sched := make([]int, 24)
+	var ss strings.Builder
+	for i := range sched {
+		sched[i] = h.Intn(nfiles)
+		if i < nfiles {
+			sched[i] = i // everybody gets going early
+		}
+		ss.WriteString(Itoa(sched[i]))
+	}
+	turns := &c17Turns{sched: sched, holder: -1, done: make([]bool, nfiles)}
+	turns.cond = sync.NewCond(&turns.mu)
+	toks = []string{"1", Itoa(bufSize), "0"}
+	rds = nil
+	for j, f := range files {
+		toks = append(toks, "turns")
+		rds = append(rds, &c17TurnReader{id: j, t: turns, rd: &c17Reader{data: f}})
+	}
+	h.Rec("run", toks...)
+	h.Rec("conc", "1", Itoa(nfiles), ss.String())
+	done := make(chan struct{})
+	var panicked bool
+	var msg string
+	go func() {
+		panicked, msg = Protect(func() { res = archiver.VerifC17ConcWorkers(repo.ChunkerFactory(), uint(nfiles), rds) })
+		close(done)
+	}()
+	select {
+	case <-done:
+	case <-time.After(120 * time.Second):
+		h.Rec("hang", "1")
+		h.End()
+		return
+	}
+	if panicked {
+		h.Rec("panic", "1", HexS(msg))
+		h.End()
+		return
+	}
+	emit(1, res)
+	h.End()
 }
 
 func (h *H) c17Data(n int, max int) []byte {
